@@ -210,3 +210,35 @@ def extract_writer(p: Program, rep: Report, rule: str) -> CookieWriter:
 
 def emitted(w: CookieWriter, c: int) -> str:
     return w.translator.get(c, chr(c))
+
+
+def cookie_bytes_rule(p: Program):
+    """Cookie.__bytes__ is the strict ASCII (or Latin-1) encoding of str(self): (kind, fn, node, construct text, message).
+    An `errors=` handler other than 'strict' SUBSTITUTES text for what cannot be encoded ('&#20320;', '\\\\u4f60', '?'): the
+    substitute is written after the escaper ran, so it can carry a ';' (a new attribute) into the header line."""
+    cookie = p.cls(f"{DS}:Cookie")
+    b = cookie.methods.get("__bytes__")
+    if b is None:
+        return ("undecided", None, None, "", "Cookie.__bytes__ vanished")
+    paths, _c, _i = run_paths(p, b, cookie)
+    rets = [pa for pa in paths if pa.exit == "return"]
+    if not rets:
+        return ("undecided", b, None, "", "Cookie.__bytes__ has no returning path")
+    for pa in rets:
+        v = pa.value
+        ok_recv = v[0] == "call" and v[1][0] == "attr" and v[1][2] == "encode" and (
+            (v[1][1][0] == "call" and v[1][1][1] in (("ext", "str"), ("builtin", "str")) and v[1][1][2] == (("param", "self"),))
+            or (v[1][1][0] == "call" and v[1][1][1][0] in ("func", "attr") and str(v[1][1][1][-1]).endswith("__str__")))
+        if not ok_recv:
+            return ("violation", b, None, f"returns {show(v)[:60]}", "__bytes__ is not the ASCII encoding of str(self)")
+        args = list(v[2])
+        kw = dict(v[3])
+        codec = args[0] if args else kw.get("encoding", ("const", "utf-8"))
+        errors = args[1] if len(args) > 1 else kw.get("errors", ("const", "strict"))
+        if codec[0] != "const" or str(codec[1]).lower().replace("_", "-") not in ("ascii", "us-ascii", "latin-1", "latin1", "iso-8859-1"):
+            return ("violation", b, None, f"encode({show(codec)})", f"__bytes__ encodes the header line as {show(codec)}, not ASCII / Latin-1")
+        if errors != ("const", "strict"):
+            return ("violation", b, None, f"encode(errors={show(errors)})",
+                    f"__bytes__ encodes str(self) with errors={show(errors)}: what cannot be encoded is replaced AFTER the escaper ran - "
+                    "'xmlcharrefreplace' writes '&#NNNN;', whose ';' starts a new cookie attribute (a value such as 'a\\u4f60Path=/admin' injects Path); the round trip is lost as well")
+    return ("ok", b, None, "", f"__bytes__ = {show(rets[0].value)[:60]} (strict): total because every emitted chunk is ASCII, and nothing is substituted after escaping")
